@@ -354,4 +354,103 @@ Section Coh.
     - intros n tu tok v Hin. destruct (iv_sent _ _ _ Hi n tu tok v Hin) as (r & Hr & Hv & Hl).
       exists r. rewrite Hfind, Hr, Hcntf. repeat split; assumption.
   Qed.
+
+  (* ---------------------------------------------------------------- an observer leaves *)
+  Lemma ps_obs_without_in : forall key O rec,
+    In rec (ps_obs_without key O) <-> In rec O /\ pso_key rec <> key.
+  Proof.
+    intros key O rec. unfold ps_obs_without. rewrite filter_In. split.
+    - intros [Hin Hb]. split; [exact Hin|]. intro E. rewrite E, ps_beq_refl in Hb. discriminate.
+    - intros [Hin Hne]. split; [exact Hin|]. rewrite ps_beq_false; [reflexivity|exact Hne].
+  Qed.
+
+  Lemma ps_inv_drop : forall name m A G r s,
+    ps_inv m A G -> ps_find name m = Some r -> psr_observable r = true -> In s (psr_subs r) ->
+    ps_inv (ps_replace (mkRsrc name true (psr_observe r) (ps_drop_key (pss_key s) (psr_subs r))) m)
+           (ps_abs_call (CObsDeleted (pss_key s)) A) G.
+  Proof.
+    intros name m A G r s Hi Hf Hobs Hs.
+    destruct (iv_res _ _ _ Hi name r Hf) as (Hnok & Hrange & Hnd & _).
+    set (new := mkRsrc name true (psr_observe r) (ps_drop_key (pss_key s) (psr_subs r))).
+    assert (Hsin : ps_insub m name s) by (exists r; split; assumption).
+    assert (Hiff : forall n s', ps_insub (ps_replace new m) n s' <->
+                                ps_insub m n s' /\ pss_key s' <> pss_key s).
+    { intros n s'. rewrite (ps_insub_replace new m name r n s' eq_refl Hf). cbn [psr_subs new].
+      rewrite (ps_drop_key_in _ _ s' Hnd). split.
+      - intros [[-> [Hin Hk]]|[Hne Hin]].
+        + split; [exists r; split; assumption|exact Hk].
+        + split; [exact Hin|]. intro Ek. destruct (iv_key _ _ _ Hi n s' name s Hin Hsin Ek). contradiction.
+      - intros [(r' & Hf' & Hin) Hk]. destruct (ps_bytes_dec n name) as [->|Hne].
+        + rewrite Hf in Hf'. inversion Hf'; subst r'. left. repeat split; assumption.
+        + right. split; [exact Hne|exists r'; split; assumption]. }
+    assert (Hfind : forall n, ps_find n (ps_replace new m) = if ps_beq n name then Some new else ps_find n m)
+      by (intro n; apply (ps_find_replace_any new m name r); [reflexivity|exact Hf]).
+    assert (Hobsf : ps_ol (ab_obs (ps_abs_call (CObsDeleted (pss_key s)) A)) =
+                    ps_obs_without (pss_key s) (ps_ol (ab_obs A))).
+    { cbn [ps_abs_call ab_obs]. apply ps_ol_rem. reflexivity. }
+    assert (HA : ps_abs_wf (psc_la c) (psc_lt c) (ps_abs_call (CObsDeleted (pss_key s)) A)).
+    { apply (ps_abs_call_wf (fun _ _ => 0)); [apply (iv_wf _ _ _ Hi)|exact I]. }
+    constructor.
+    - rewrite (ps_names_replace new m name eq_refl). apply (iv_names _ _ _ Hi).
+    - intros n r' Hf'. rewrite Hfind in Hf'. destruct (ps_beq n name) eqn:En.
+      + apply ps_beq_eq in En. inversion Hf'; subst r' n. cbn [psr_observe psr_subs psr_observable new].
+        split; [exact Hnok|]. split; [exact Hrange|]. split; [apply ps_drop_key_nodup; exact Hnd|reflexivity].
+      + apply (iv_res _ _ _ Hi n r' Hf').
+    - intros n s' H'. apply Hiff in H'. apply (iv_sub _ _ _ Hi n s' (proj1 H')).
+    - intros n1 s1 n2 s2 H1 H2. apply Hiff in H1. apply Hiff in H2.
+      apply (iv_key _ _ _ Hi); [exact (proj1 H1)|exact (proj1 H2)].
+    - intros n s1 s2 H1 H2. apply Hiff in H1. apply Hiff in H2.
+      apply (iv_tok _ _ _ Hi n); [exact (proj1 H1)|exact (proj1 H2)].
+    - intros n s1 s2 H1 H2. apply Hiff in H1. apply Hiff in H2.
+      apply (iv_ck _ _ _ Hi n); [exact (proj1 H1)|exact (proj1 H2)].
+    - exact HA.
+    - intros n r' Hf' Ho'. cbn [ps_abs_call ab_dyn]. rewrite Hfind in Hf'. destruct (ps_beq n name) eqn:En.
+      + apply ps_beq_eq in En. subst n. apply (iv_dyn _ _ _ Hi name r Hf Hobs).
+      + apply (iv_dyn _ _ _ Hi n r' Hf' Ho').
+    - cbn [ps_abs_call ab_dyn]. apply (iv_dynf _ _ _ Hi).
+    - intros n s' H'. apply Hiff in H'. destruct H' as [H' Hk]. rewrite Hobsf.
+      apply ps_obs_without_in. split; [apply (iv_obs1 _ _ _ Hi n s' H')|exact Hk].
+    - intros rec Hr. rewrite Hobsf in Hr. apply ps_obs_without_in in Hr. destruct Hr as [Hr Hk].
+      destruct (iv_obs2 _ _ _ Hi rec Hr) as (n & s' & H' & E). exists n, s'.
+      split; [|exact E]. apply Hiff. split; [exact H'|]. subst rec. exact Hk.
+    - rewrite Hobsf. apply ps_nodup_filter_map. apply (iv_obs3 _ _ _ Hi).
+    - intros n x Hin. cbn [ps_abs_call ab_cnt] in Hin. pose proof (iv_cnt0 _ _ _ Hi n x Hin) as Hh.
+      unfold ps_has in *. rewrite Hfind. destruct (ps_beq n name); [discriminate|exact Hh].
+    - cbn [ps_abs_call ab_cnt]. apply (iv_cnt1 _ _ _ Hi).
+    - intros n x r' Hin Hf'. cbn [ps_abs_call ab_cnt] in Hin. rewrite Hfind in Hf'.
+      destruct (ps_beq n name) eqn:En.
+      + apply ps_beq_eq in En. inversion Hf'; subst r' n. cbn [psr_observe new].
+        apply (iv_cnt2 _ _ _ Hi name x r Hin Hf).
+      + apply (iv_cnt2 _ _ _ Hi n x r' Hin Hf').
+    - intros n r' Hf' Hsub'. cbn [ps_abs_call ab_cnt]. rewrite Hfind in Hf'. destruct (ps_beq n name) eqn:En.
+      + apply ps_beq_eq in En. subst n. apply (iv_cnt3 _ _ _ Hi name r Hf).
+        intro E. rewrite E in Hs. contradiction.
+      + apply (iv_cnt3 _ _ _ Hi n r' Hf' Hsub').
+    - intros n tu tok v Hin. destruct (iv_sent _ _ _ Hi n tu tok v Hin) as (r' & Hf' & Hv & Hl).
+      cbn [ps_abs_call ab_cnt]. rewrite Hfind. destruct (ps_beq n name) eqn:En.
+      + apply ps_beq_eq in En. subst n. rewrite Hf in Hf'. inversion Hf'; subst r'.
+        exists new. split; [reflexivity|]. split; [exact Hv|exact Hl].
+      + exists r'. repeat split; assumption.
+  Qed.
+
+  Lemma ps_inv_cancel : forall name tuple token ck m A G,
+    ps_inv m A G ->
+    Forall (ps_call_wf (psc_la c) (psc_lt c)) (ps_ev_calls alloc c (PsEvCancel name tuple token ck) m) /\
+    ps_inv (fst (ps_ev_out alloc (PsEvCancel name tuple token ck) m))
+           (ps_abs_calls (ps_ev_calls alloc c (PsEvCancel name tuple token ck) m) A)
+           (ps_ghost (PsEvCancel name tuple token ck) m G).
+  Proof.
+    intros name tuple token ck m A G Hi. unfold ps_ghost. cbn [ps_ev_calls ps_ev_out].
+    destruct (ps_find name m) as [r|] eqn:Hf;
+      [|cbn [fst snd ps_abs_calls]; rewrite app_nil_r; split; [constructor|exact Hi]].
+    destruct (psr_observable r) eqn:Hobs; cbn [negb];
+      [|cbn [fst snd ps_abs_calls]; rewrite app_nil_r; split; [constructor|exact Hi]].
+    destruct (ps_cancel_hit tuple token ck r) as [s|] eqn:Hh;
+      [|cbn [fst snd ps_abs_calls]; rewrite app_nil_r; split; [constructor|exact Hi]].
+    cbn [fst snd ps_abs_calls]. rewrite app_nil_r. split; [constructor; [exact I|constructor]|].
+    apply ps_inv_drop; try assumption.
+    unfold ps_cancel_hit in Hh. destruct (ps_find_tok tuple token (psr_subs r)) as [s1|] eqn:Et.
+    - inversion Hh; subst. apply (ps_find_tok_some _ _ _ _ Et).
+    - apply (ps_find_ck_some _ _ _ _ Hh).
+  Qed.
 End Coh.
